@@ -86,6 +86,7 @@ def ISNA(value):
 
 @dispatcher.register_for('N')
 def N(value):
+    value = utils.single(value)
     if isinstance(value, (error.XLError, number_types)):
         return value
     if isinstance(value, datetime.datetime):
